@@ -41,5 +41,7 @@ SEEDED = [
     ("C09-10", "C09-PATH"),
     ("C09-12", "C09-LABEL"),
     ("C09-13", "C09-PATH"),
+    ("C09-14", "C09-PATH"),
+    ("C09-15", "C09-LABEL"),
 ]
 MUTANTS = list(MUTANTS) + [_P("seed-" + sid, _os.path.join(_SEEDS, sid, "patch.diff"), rule) for sid, rule in SEEDED if _os.path.exists(_os.path.join(_SEEDS, sid, "patch.diff"))]
